@@ -31,7 +31,7 @@ const sandboxPrefix = "/dev/shm/verif-c06-"
 
 const (
 	fullBudget  = 100000 // backend operations per call (the property's "a call terminates")
-	probeBudget = 5000   // first-stage budget: a call that exceeds it is re-run with the full budget (see runChecked)
+	probeBudget = 5000   // first-stage budget: the first case of every call shape that exceeds it is re-run with the full budget (see c06_test.go, confirmation phase)
 )
 
 var errBudget = errors.New("verif: backend operation budget of the call exhausted")
@@ -48,10 +48,29 @@ type control struct {
 	cancelAt  int64 // cancel the context just before the cancelAt-th backend operation (0 = never)
 	cancel    context.CancelFunc
 	escapes   int
+	// crash isolation (in-memory backend): MemMapFs.Rename can end the PROCESS ("fatal error: sync: RUnlock of unlocked
+	// RWMutex", not recoverable). Before every Rename the hook records the operation class in the worker's in-flight
+	// file; a class that already killed a worker is not performed again: the goroutine is ended instead and the run is
+	// reported as crashed (see pool_test.go).
+	crashClasses map[string]bool
+	crashed      string
+	noteRename   func(opClass string)
+}
+
+func renameClass(oldp, newp string) string {
+	switch {
+	case oldp == newp:
+		return "Rename(same)"
+	case strings.HasPrefix(newp, oldp+"/"):
+		return "Rename(new-inside-old)"
+	case strings.HasPrefix(oldp, newp+"/"):
+		return "Rename(old-inside-new)"
+	}
+	return "Rename(other)"
 }
 
 func (c *control) reset(budget int64) {
-	c.n, c.budget, c.exhausted, c.killed, c.cancelAt, c.cancel, c.escapes = 0, budget, false, false, 0, nil, 0
+	c.n, c.budget, c.exhausted, c.killed, c.cancelAt, c.cancel, c.escapes, c.crashed = 0, budget, false, false, 0, nil, 0, ""
 }
 
 func (c *control) allowed(op *vfsx.Op, p string, second bool) bool {
@@ -104,6 +123,16 @@ func (c *control) Before(op *vfsx.Op) *vfsx.Inject {
 			runtime.Goexit()
 		}
 		return &vfsx.Inject{Err: errBudget, Short: -1}
+	}
+	if !c.isOS && op.Kind == vfsx.KRename {
+		cl := renameClass(op.Path, op.Path2)
+		if c.crashClasses[cl] {
+			c.crashed = cl
+			runtime.Goexit()
+		}
+		if c.noteRename != nil {
+			c.noteRename(cl)
+		}
 	}
 	return nil
 }
@@ -259,7 +288,7 @@ func (b *backend) run(c call, budget int64, cancelAt int) result {
 		// (exit 2), never a verdict
 		panic("c06: call " + c.String() + " neither returned nor touched the backend for 10 minutes")
 	}
-	r := result{Ops: b.ctl.n, Exhausted: b.ctl.exhausted, Killed: b.ctl.killed || !finished, Escapes: b.ctl.escapes}
+	r := result{Ops: b.ctl.n, Exhausted: b.ctl.exhausted, Killed: b.ctl.killed || (!finished && b.ctl.crashed == ""), Escapes: b.ctl.escapes, Crashed: b.ctl.crashed}
 	r.Handles = len(b.shared.OpenHandles())
 	if finished {
 		r.OK = err == nil
